@@ -216,6 +216,32 @@ def check(ctx):
                 if key in done or db.get(key) is None:
                     continue
                 check_delegate(ctx, cfg, key, tr + "::" + it_["name"], None, 2)
+        # Hash::hash_slice is what `[A]`, `Vec<A>`, `[A; K]` and nested arrays feed a hasher through when their ELEMENTS are GenericArrays: the provided
+        # method hashes each piece with `hash` (length prefix included), in order. An override replaces it, so it must do exactly that - each
+        # element of the whole slice handed to the array's own `hash` with the caller's hasher, once, front to back (a flattening `T::hash_slice`
+        # drops the per-array length prefixes: the slice of arrays then hashes differently from the slice of their Borrow<[T]> forms)
+        for imp in db.impls:
+            if imp.get("trait") != "core::hash::Hash" or not (imp["self"].get("k") == "adt" and imp["self"]["def"] == "GenericArray"):
+                continue
+            for it_ in imp["items"]:
+                key = db.impl_key(imp) + "::" + it_["name"]
+                if it_["name"] == "hash" or db.get(key) is None:
+                    continue
+                hb = db.get(key)
+                ok, det = False, "an override of Hash::%s: not a method whose provided form is known here" % it_["name"]
+                if it_["name"] == "hash_slice":
+                    from ..rules import visits_all
+                    from ..poly import Poly
+                    ha = ctx.analysis(cfg, key)
+                    ok, det = visits_all(ctx, cfg, ha, ("arg", 1), Poly.atom(("len", ("arg", 1))), "core::hash::Hash::hash", "\0", "\0")
+                    sinks = [c for c in ha.calls if c.fn == "core::hash::Hash::hash"]
+                    for cb_ in db.bodies:
+                        if cb_.get("root") == hb["path"] and cb_["kind"] == "Closure":
+                            sinks += [c for c in ctx.analysis(cfg, cb_["key"]).calls if c.fn == "core::hash::Hash::hash"]
+                    own = bool(sinks) and all(c.targs and tstr(c.targs[0]) == tstr(imp["self"]) for c in sinks)
+                    det = "hash_slice override: every piece of the whole slice goes to the array's own `hash`, once, in order: %s (%s); the sink is <Self as Hash>::hash: %s" % (ok, det, own)
+                    ok = ok and own
+                ctx.ob("C13.D", key, ok, det, at=hb["at"], cfg=cfg, frozen=False)
         for key in BORROWS:
             b = ctx.body(cfg, key, "C13.B")
             if b is None:
